@@ -37,6 +37,8 @@ def build_corpus(chk, tier, corpus_file, exhaustive_len=None, sizes=None):
         corpus.append(("plain", data, None))
     for _ in range(nmal):
         corpus.append(("malformed", asm.assemble(progs.malformed(rng)), None))
+    for label, data in progs.boundary_pickles():
+        corpus.append(("plain", data, None))          # plain data at size boundaries (seeded round 7)
     return corpus
 
 
